@@ -481,3 +481,8 @@ Fixpoint hc_run (p : cpx) (cache : option (Z * Z)) (ops : list pop) : list (list
                 end in
       (fst hb :: snd hb :: c_data p) :: hc_run p (Some hb) r
   end.
+
+(* a makeTransaction that first discards what is queued for its function ("it arrived before the request") *)
+Definition c_transact_flush (takes : list Z) (c : cstate) (p : cpx) (k : nat) : cstate * list cobs :=
+  c_step takes (mk_cs (cs_in c) (match cs_rt c (c_fn p) with Some _ => upd (cs_rt c) (c_fn p) [] | None => cs_rt c end) (cs_open c))
+         (CTransact p k).
